@@ -2,7 +2,10 @@
 
 package simkit
 
-import "runtime"
+import (
+	"runtime"
+	"unsafe"
+)
 
 const RaceBuild = true
 
@@ -11,3 +14,9 @@ func raceOff() { runtime.RaceDisable() }
 
 //go:norace
 func raceOn() { runtime.RaceEnable() }
+
+// RaceRelease / RaceAcquire let simulator stand-ins for synchronising library
+// objects (sync.Pool) give the detector the happens-before edges the real
+// object gives. Must be called outside raceOff/raceOn regions.
+func RaceRelease(p unsafe.Pointer) { runtime.RaceReleaseMerge(p) }
+func RaceAcquire(p unsafe.Pointer) { runtime.RaceAcquire(p) }
